@@ -5,7 +5,7 @@
 From Coq Require Import ZArith List Bool Lia.
 Import ListNotations.
 From Urwid Require Import PyBase PyList AttrFlow AttrFlowBasics AttrFlowMarkup AttrFlowLayout AttrFlowClip
-  AttrFlowMaps AttrFlowSgr AttrFlowPalette.
+  AttrFlowTrim AttrFlowCells AttrFlowMaps AttrFlowSgr AttrFlowPalette.
 Open Scope Z_scope.
 
 (* ================= clause 1a: markup =================
@@ -24,31 +24,103 @@ Proof. exact decompose_innermost. Qed.
 Print Assumptions markup_innermost.
 
 (* ================= clause 1b: layout =================
+   apply_text_layout first cuts every line with trim_line (clip mode and right/centre aligned
+   overlong lines rely on it), then runs the segment loop.  [trimmed_lines text maxcol lines tl]
+   says that trim_line turns each line into the well-formed line of [tl].
    [seg_spec text attrs s] (AttrFlowLayout.v) is what the property demands of the bytes a
    segment puts on the line: every byte of displayed character i carries rle_get_at attrs i;
    alignment padding carries None.  The only premise on the text is the data condition
    [enc_ok]: encoded lengths are not negative, and a byte of a bytes text / an ASCII character
-   of a str text becomes at most one byte (0 for SO/SI) - true of every target encoding urwid
-   accepts; nothing is assumed of non-ASCII characters (0, 1, 2, 3, 4 ... bytes).
-   For EVERY such text (str or bytes), EVERY attribute list with non-negative runs and EVERY
-   layout of well-formed segments (any order, any repetition, any number of lines - the
-   attribute walker state is shared): each canvas row is exactly the concatenation of its
-   segments' demands followed by None fill, and it contains no zero-length run (so
-   TextCanvas.content() / rle_product never stops early). *)
+   of a str text becomes at most one byte (0 for SO/SI); nothing is assumed of non-ASCII
+   characters.  For EVERY such text (str or bytes), EVERY attribute list with non-negative runs
+   and EVERY layout (any order, any repetition, any number of lines - the attribute walker state
+   is shared): each canvas row is exactly the concatenation of the demands of its trimmed
+   segments followed by None fill, and it contains no zero-length run. *)
 Theorem layout_keeps_attr_full :
-  forall isb text attrs lines maxcol rows,
-    enc_ok isb text -> nonneg attrs -> Forall (Forall (wf_seg text)) lines ->
+  forall isb text attrs lines tl maxcol rows,
+    enc_ok isb text -> nonneg attrs -> trimmed_lines text maxcol lines tl ->
     apply_text_layout isb text attrs lines maxcol = Ok rows ->
     Forall2 (fun segs row =>
                (exists k, expand row = flat_map (seg_spec text attrs) segs ++ repeat None k) /\ nozero row)
-            lines rows.
+            tl rows.
 Proof. exact layout_rows_spec. Qed.
 Print Assumptions layout_keeps_attr_full.
 
+(* the premise [trimmed_lines] holds (i) for every line that fits - trim_line is the identity,
+   whatever the characters are - *)
+Theorem trim_line_identity_when_fits :
+  forall text segs maxcol,
+    Forall (fun s => 0 <= seg_sc s <= maxcol) segs -> 0 < maxcol -> trim_line text segs maxcol = Ok segs.
+Proof. exact trim_line_fits. Qed.
+Print Assumptions trim_line_identity_when_fits.
+
+(* (ii) and for EVERY line of segments [wf_pre] (text segments in range whose characters are 1 or
+   2 columns wide and which do not claim more columns than their text has; inserts likewise; any
+   alignment pad, negative ones included), overlong or not: trim_line succeeds and hands on
+   well-formed segments.  So for such layouts the theorem above needs no premise on trimming. *)
+Theorem trim_line_keeps_wellformed :
+  forall text segs maxcol, Forall (wf_pre text) segs ->
+    exists l, trim_line text segs maxcol = Ok l /\ Forall (wf_seg text) l.
+Proof. exact trim_line_wf. Qed.
+Print Assumptions trim_line_keeps_wellformed.
+
+Theorem layout_keeps_attr_through_trim :
+  forall isb text attrs lines maxcol rows,
+    enc_ok isb text -> nonneg attrs -> Forall (Forall (wf_pre text)) lines ->
+    apply_text_layout isb text attrs lines maxcol = Ok rows ->
+    exists tl, trimmed_lines text maxcol lines tl /\
+      Forall2 (fun segs row =>
+                 (exists k, expand row = flat_map (seg_spec text attrs) segs ++ repeat None k) /\ nozero row)
+              tl rows.
+Proof.
+  intros isb text attrs lines maxcol rows Hok Hn Hp Ha.
+  destruct (trimmed_lines_exist text maxcol lines Hp) as [tl Ht].
+  exists tl. split; [exact Ht|]. now apply (layout_rows_spec isb text attrs lines tl maxcol rows).
+Qed.
+Print Assumptions layout_keeps_attr_through_trim.
+
+(* LayoutSegment.subseg on a text segment, window start <= column < e: the emitted segments are
+   well-formed and show, column by column, exactly the columns of the window - a blank standing
+   for half of a double-width character carries that character's attribute - EXCEPT when the
+   cut character is the one at text offset 0 (see the refutation below). *)
+Theorem subseg_shows_window :
+  forall text attrs sc o en start e,
+    wf_pre text (SText sc o en) -> 0 <= start -> start < e -> e <= sc ->
+    exists l, subseg text (SText sc o en) start e = Ok l /\ Forall (wf_seg text) l /\
+      (~ cut_at_offset_zero text o start e ->
+       flat_map (seg_cols text attrs) l = sub (seg_cols text attrs (SText sc o en)) start e).
+Proof. exact subseg_text_spec. Qed.
+Print Assumptions subseg_shows_window.
+
+(* The full statement drops the exception.  It is FALSE of the faithful model: the pad for the
+   half of the character at offset 0 is the segment (1, 0), and apply_text_layout's
+   "elif s.offs:" reads offset 0 as "no offset", so the blank carries None. *)
+Definition subseg_shows_window_full : Prop :=
+  forall text attrs sc o en start e,
+    wf_pre text (SText sc o en) -> 0 <= start -> start < e -> e <= sc ->
+    exists l, subseg text (SText sc o en) start e = Ok l /\
+      flat_map (seg_cols text attrs) l = sub (seg_cols text attrs (SText sc o en)) start e.
+
+(* witness: two double-width characters tagged 1, right-aligned clip to 3 columns cuts the
+   first one.  Replayed on the implementation: corpus/C17/offset_zero_half.json *)
+Theorem subseg_shows_window_full_refuted : ~ subseg_shows_window_full.
+Proof.
+  intro H.
+  destruct (H [Chr 3 2 false 2; Chr 3 2 false 2] [(Some 1, 2)] 4 0 2 1 4) as (l & E & C).
+  - cbn [wf_pre]. split; [lia|]. split; [lia|]. split; [lia|]. split; [unfold zlen; cbn; lia|].
+    split; [vm_compute; discriminate|].
+    vm_compute. repeat (constructor; [split; discriminate|]). constructor.
+  - lia.
+  - lia.
+  - lia.
+  - vm_compute in E. inversion E; subst. vm_compute in C. discriminate.
+Qed.
+Print Assumptions subseg_shows_window_full_refuted.
+
 (* a well-formed layout never raises ValueError out of the segment loop *)
 Theorem layout_wellformed_no_error :
-  forall isb text attrs lines maxcol,
-    enc_ok isb text -> nonneg attrs -> Forall (Forall (wf_seg text)) lines ->
+  forall isb text attrs lines tl maxcol,
+    enc_ok isb text -> nonneg attrs -> trimmed_lines text maxcol lines tl ->
     exists lss, do_lines isb text attrs maxcol (0, 0) lines = Ok lss.
 Proof. exact layout_no_value_error. Qed.
 Print Assumptions layout_wellformed_no_error.
@@ -62,18 +134,53 @@ Theorem layout_segment_keeps_attr :
 Proof. exact do_seg_spec. Qed.
 Print Assumptions layout_segment_keeps_attr.
 
-(* the premise cannot be dropped: if an ASCII character could become two bytes the shortcut
+(* ================= the per-COLUMN statement =================
+   Every canvas row is the byte string of a sequence of displayed characters [shown] followed by
+   k fill blanks; reading that sequence per screen column gives [seg_cells]: for every character
+   of a text segment as many columns as it is wide, ALL carrying that character's attribute
+   (both columns of a double-width character); one column per blank - None for alignment padding
+   and fill, the attribute at its offset for a blank standing for half a character; an insert's
+   columns carry the attribute at its offset.  (Inserts are plain: no SO/SI inside.) *)
+Theorem layout_cells :
+  forall isb text attrs lines tl maxcol rows,
+    enc_ok isb text -> nonneg attrs -> trimmed_lines text maxcol lines tl -> Forall (Forall ins_plain) tl ->
+    apply_text_layout isb text attrs lines maxcol = Ok rows ->
+    Forall2 (fun segs row => exists (shown : crow) (k : nat),
+               expand row = rbytes (shown ++ repeat (blank None) k) /\
+               colattrs (shown ++ repeat (blank None) k) = flat_map (seg_cells text attrs) segs ++ repeat None k)
+            tl rows.
+Proof. exact layout_cells_lemma. Qed.
+Print Assumptions layout_cells.
+
+Theorem trimming_keeps_inserts_plain :
+  forall text maxcol lines tl,
+    trimmed_lines text maxcol lines tl -> Forall (Forall ins_plain) lines -> Forall (Forall ins_plain) tl.
+Proof. exact trimmed_lines_plain. Qed.
+Print Assumptions trimming_keeps_inserts_plain.
+
+(* the premise enc_ok cannot be dropped: if an ASCII character could become two bytes the shortcut
    of attrrange would misplace the boundary (data that no supported encoding produces) *)
 Example enc_ok_needed :
-  apply_text_layout false [Chr 2 1 true; Chr 0 0 true] [(Some 1, 1); (Some 2, 1)] [[SText 1 0 2]] 1
+  apply_text_layout false [Chr 2 1 true 1; Chr 0 0 true 0] [(Some 1, 1); (Some 2, 1)] [[SText 1 0 2]] 1
   = Ok [[(Some 1, 1); (Some 2, 1)]].
 Proof. vm_compute. reflexivity. Qed.
 
-(* regression for the repaired defect: e-acute (2 bytes, not ASCII) tagged 1 then SO (0 bytes)
+(* regression for a repaired defect: e-acute (2 bytes, not ASCII) tagged 1 then SO (0 bytes)
    tagged 2: both bytes of the first character carry 1 and no zero-length run is left *)
 Example so_next_to_multibyte :
-  apply_text_layout false [Chr 2 1 false; Chr 0 0 true] [(Some 1, 1); (Some 2, 1)] [[SText 1 0 2]] 1
+  apply_text_layout false [Chr 2 1 false 1; Chr 0 0 true 0] [(Some 1, 1); (Some 2, 1)] [[SText 1 0 2]] 1
   = Ok [[(Some 1, 2)]].
+Proof. vm_compute. reflexivity. Qed.
+
+(* clip mode, right aligned: 'x' tagged 1, a wide character tagged 2, 'y' tagged 3 in 3 columns:
+   the line [(-1, None), (4, 0, 3)] is cut through... nothing here; and in 2 columns through the
+   wide character, whose blank keeps attribute 2 *)
+Example trim_somewhere :
+  let text := [Chr 1 1 true 1; Chr 3 2 false 2; Chr 1 1 true 1] in
+  let attrs := [(Some 1, 1); (Some 2, 1); (Some 3, 1)] in
+  (trim_line text [SPad (-2) None; SText 4 0 3] 2,
+   apply_text_layout false text attrs [[SPad (-2) None; SText 4 0 3]] 2)
+  = (Ok [SPad 1 (Some 1); SText 1 2 3], Ok [[(Some 2, 1); (Some 3, 1)]]).
 Proof. vm_compute. reflexivity. Qed.
 
 (* ================= clause 1c: clipping a rendered row =================
@@ -259,20 +366,20 @@ Proof. vm_compute. reflexivity. Qed.
 (* "a" + 2-byte char + wide 3-byte char, tags 1,1,2; right-aligned in 6 columns, then an
    out-of-order second line re-reading from offset 0 (walker reset) *)
 Example layout_somewhere :
-  apply_text_layout false [Chr 1 1 true; Chr 2 1 false; Chr 3 2 false] [(Some 1, 2); (Some 2, 1)]
-                    [[SPad 2 None; SText 4 0 3]; [SText 1 0 1; SIns 1 1 3 3 1]] 6
+  apply_text_layout false [Chr 1 1 true 1; Chr 2 1 false 1; Chr 3 2 false 2] [(Some 1, 2); (Some 2, 1)]
+                    [[SPad 2 None; SText 4 0 3]; [SText 1 0 1; SIns 1 1 [RC 3 1] 3]] 6
   = Ok [[(None, 2); (Some 1, 3); (Some 2, 3)]; [(Some 1, 4); (None, 4)]].
 Proof. vm_compute. reflexivity. Qed.
 
 Example layout_hypotheses_satisfiable :
-  enc_ok false [Chr 1 1 true; Chr 2 1 false; Chr 3 2 false] /\
-  nonneg [(Some 1, 2); (Some 2, 1)] /\
-  Forall (Forall (wf_seg [Chr 1 1 true; Chr 2 1 false; Chr 3 2 false]))
-         [[SPad 2 None; SText 4 0 3]; [SText 1 0 1; SIns 1 1 3 3 1]].
+  let text := [Chr 1 1 true 1; Chr 2 1 false 1; Chr 3 2 false 2] in
+  enc_ok false text /\ nonneg [(Some 1, 2); (Some 2, 1)] /\
+  Forall (Forall (wf_pre text)) [[SPad 2 None; SText 4 0 3]; [SText 1 0 1; SIns 1 1 [RC 3 1] 3]; [SPad (-1) None; SText 4 0 3]].
 Proof.
-  unfold enc_ok.
+  cbn zeta. unfold enc_ok, rchars_ok.
   repeat (first [apply Forall_nil | apply Forall_cons | split]); cbn; unfold zlen; cbn;
-    try lia; try (intros [?|?]; (discriminate || lia)).
+    try lia; try (intros [?|?]; (discriminate || lia)); try exact I.
+  all: vm_compute; try discriminate; repeat (constructor; [split; discriminate|]); try constructor.
 Qed.
 
 (* AttrMap({1:3, None:4}, focus_map {1:5}) around AttrMap({2:1}) around a leaf, in a Pile at focus *)
